@@ -13,6 +13,7 @@
 (*       floating-point resolution")                                           *)
 (*   XB, XBack  grid points with positive density and ppf(cdf(x)) there         *)
 (*   LP, LPlog   log_pdf and log(pdf)                                           *)
+(*   batchdev    batch value vs the same element alone / reversed / mixed        *)
 (* A constant-data observation carries the exact clauses as booleans computed  *)
 (* from exact comparisons (step at c, ppf = c, sample = c).                    *)
 (***************************************************************************)
@@ -42,7 +43,10 @@ Regular(o) ==
   \* ulps, tail(x - d) / q <= 1 + 1e-3 and tail(x + d) / q >= 1 - 1e-3 (ratios scaled by 1e6, capped at 1e9)
   (IF \E i \in DOMAIN o.TLo : o.TLo[i] # NAN /\ o.THi[i] # NAN /\ (o.TLo[i] > 1001000 \/ o.THi[i] < 999000)
       THEN <<"percent_point-does-not-invert-cdf-in-the-tails">> ELSE <<>>) \o
-  (IF ~CloseSeq(o.LP, o.LPlog, 5, 2) THEN <<"log_pdf-is-not-log-of-pdf">> ELSE <<>>)
+  (IF ~CloseSeq(o.LP, o.LPlog, 5, 2) THEN <<"log_pdf-is-not-log-of-pdf">> ELSE <<>>) \o
+  \* batchdev: largest difference (scaled by 1e9; relative to the data range for percent_point, to the largest density for pdf)
+  \* between a batch value and the same element evaluated alone / in the reversed batch / next to far-out elements
+  (IF o.batchdev > 1000 THEN <<"elements-of-a-batch-not-evaluated-independently">> ELSE <<>>)
 
 Constant(o) ==
   (IF o.err # "" THEN <<o.err>> ELSE <<>>) \o
